@@ -232,7 +232,7 @@ func TestReplay_Q(t *testing.T) {
 		out := runC01Store(c, false)
 		verifkit.ReportReplay(rf, out.Failure)
 	}
-	for _, rf := range verifkit.ReplayFiles("TestProp_C13_LockStep") {
+	for _, rf := range append(verifkit.ReplayFiles("TestProp_C13_LockStep"), verifkit.ReplayFiles("TestProp_C13_LongLockStep")...) {
 		var c QCase
 		if err := json.Unmarshal(rf.Case, &c); err != nil {
 			fmt.Printf("REPLAY-ERROR file=%s err=%v\n", rf.Path, err)
